@@ -215,6 +215,10 @@ func (r *transport) handleUnrecognizedMethod(
 	req *http.Request,
 	urlKey string,
 ) (*http.Response, error) {
+	if internal.ParseCCRequestDirectives(req.Header).OnlyIfCached() {
+		// RFC 9111 §5.2.1.7: nothing is stored for such requests and the origin must not be contacted.
+		return make504Response(req)
+	}
 	if !internal.IsUnsafeMethod(req.Method) {
 		resp, err := r.upstream.RoundTrip(req)
 		if err != nil {
@@ -302,6 +306,7 @@ func (r *transport) handleCacheHit(
 	freshness := r.fc.CalculateFreshness(stored, ccReq, ccResp)
 	respNoCacheFieldsRaw, hasRespNoCache := ccResp.NoCache()
 	respNoCacheFieldsSeq, isRespNoCacheQualified := respNoCacheFieldsRaw.Value()
+	var needsValidation bool
 
 	// RFC 8246: If response is fresh and immutable, always serve from cache unless request has no-cache
 	if !freshness.IsStale && ccResp.Immutable() && !ccReq.NoCache() &&
@@ -316,12 +321,31 @@ func (r *transport) handleCacheHit(
 		)
 	}
 
-	if (freshness.IsStale && ccResp.MustRevalidate()) ||
-		(hasRespNoCache && !isRespNoCacheQualified) { // Unqualified no-cache: must revalidate before serving from cache
+	// Validation is required before reuse: stale + must-revalidate, or unqualified no-cache.
+	needsValidation = (freshness.IsStale && ccResp.MustRevalidate()) ||
+		(hasRespNoCache && !isRespNoCacheQualified)
+
+	if ccReq.OnlyIfCached() {
+		// RFC 9111 §5.2.1.7: only-if-cached never contacts the origin; a response that
+		// would need validation cannot be used, so answer 504.
+		if needsValidation {
+			return make504Response(req)
+		}
+		return r.serveFromCache(
+			req,
+			urlKey,
+			stored,
+			freshness,
+			isRespNoCacheQualified,
+			respNoCacheFieldsSeq,
+		)
+	}
+
+	if needsValidation {
 		goto revalidate
 	}
 
-	if ccReq.OnlyIfCached() || (!freshness.IsStale && !ccReq.NoCache()) {
+	if !freshness.IsStale && !ccReq.NoCache() {
 		return r.serveFromCache(
 			req,
 			urlKey,
